@@ -427,6 +427,11 @@ impl WorldGen {
                             if self.r.chance(30) && ids.len() > 1 {
                                 ids.truncate(1);
                             }
+                            if self.r.chance(25) {
+                                // the same id twice
+                                let d = ids[self.r.below(ids.len() as u64) as usize];
+                                ids.push(d);
+                            }
                             (admin.clone(), format!("- {} {}", s_list(&ids, |x| x.to_string()), hs(&p0.receiver)))
                         } else {
                             (admin.clone(), "- [1] -".to_string())
